@@ -368,13 +368,22 @@ def run_sim(family, seed, count, scenario_file=None, keep_trace=False):
     acts, cfgs = {}, {}
     nsample = 0
     ended = {}
+    sigs = {}
     cur = None
     with open(trace, errors='replace') as fh:
         for line in fh:
             if line.startswith('S '):
                 cur = line.split(' ', 2)[1]
-            elif line.startswith('E ') and ' stim kind=' in line and any(k in line for k in ('kind=fail', 'kind=chclose', 'kind=ctxend', 'kind=stop', 'kind=rawend')):
-                ended[cur] = True
+                kvs = dict(x.split('=') for x in line.split(' ')[2:] if '=' in x)
+                raw = ('rawc' if kvs.get('rawc', '0').strip() == '1' else '') + ('raws' if kvs.get('raws', '0').strip() == '1' else '')
+                sigs[cur] = [kvs.get('mode', '?').strip(), 'rev0' if (kvs.get('cdis') == '1' or kvs.get('sdis') == '1' or kvs.get('cleg') == '1' or kvs.get('sleg') == '1') else 'fc', raw or 'real', set()]
+            elif line.startswith('E ') and ' stim kind=' in line:
+                m = re.search(r'stim kind=(\w+)', line)
+                if m and m.group(1) in ('fail', 'chclose', 'ctxend', 'stop', 'rawend', 'shutdown'):
+                    if m.group(1) != 'shutdown':
+                        ended[cur] = True
+                    if cur in sigs:
+                        sigs[cur][3].add(m.group(1))
             if line.startswith('A '):
                 k = line.split(' ', 3)[2].strip()
                 acts[k] = acts.get(k, 0) + 1
@@ -386,8 +395,14 @@ def run_sim(family, seed, count, scenario_file=None, keep_trace=False):
                     res['samples'].append(line.strip()[:220])
                 nsample += 1
     res['actions'], res['configs'] = acts, cfgs
+    def sig_of(name):
+        g = sigs.get(name)
+        return '%s/%s/%s/%s' % (g[0], g[1], g[2], '+'.join(sorted(g[3])) or 'none') if g else '?'
     for a in res['abnormal']:
         a['after_tunnel_end'] = bool(ended.get(a['scenario']))
+        a['sig'] = sig_of(a['scenario'])
+    for f in res['failures']:
+        f['sig'] = sig_of(f['scenario'])
     res['samples'] = res['samples'][:4]
     if 'FAIL' in o and 'panic' in o:
         res['abnormal'].append({'scenario': '?', 'status': 'test binary reported: ' + o[-600:]})
@@ -470,7 +485,7 @@ class Verdict:
             return
         for f in r['failures']:
             if (codes(f['code']) if codes else (self.pid in code_props(f['code']))):
-                self.concrete.append({'key': 'M2:%s:%d' % (r['family'], f['code']), 'kfkey': 'code%d' % f['code'], 'where': 'M2 ' + r['family'],
+                self.concrete.append({'key': 'M2:%s:%d' % (r['family'], f['code']), 'kfkey': 'code%d/%s' % (f['code'], f.get('sig', '?')), 'where': 'M2 ' + r['family'],
                                       'scenario': f['scenario'], 'code': f['code'], 'meaning': CODE_TEXT.get(f['code'], '?'),
                                       'action': f['act'], 'a': f['a'], 'b': f['b'], 'seed': r['seed'], 'trace': r.get('trace')})
         for a in r['abnormal']:
@@ -479,7 +494,7 @@ class Verdict:
                    else (['C14'] + (['C04'] if a.get('after_tunnel_end') else [])))
             if self.pid not in rel:
                 continue
-            self.concrete.append({'key': 'M2:%s:abnormal' % r['family'], 'kfkey': 'abnormal', 'where': 'M2 ' + r['family'],
+            self.concrete.append({'key': 'M2:%s:abnormal' % r['family'], 'kfkey': '%s/%s' % (a['status'].split(' ')[0], a.get('sig', '?')), 'where': 'M2 ' + r['family'],
                                   'scenario': a['scenario'], 'meaning': 'scenario ended abnormally (panic, or goroutines of the bubble left blocked): ' + a['status'][:300],
                                   'seed': r['seed'], 'trace': r.get('trace')})
 
